@@ -12,9 +12,22 @@ pub const MAX_ZERO_WIDTH_ELEMS: usize = 1 << 20;
 
 /// Strictly decode exactly one value from the front of `buf`; returns the value and the number of bytes consumed.
 pub fn decode(buf: &[u8]) -> Result<(RVal, usize), RErr> {
-    let mut d = Dec { buf, pos: 0, end: buf.len(), zero_budget: MAX_ZERO_WIDTH_ELEMS };
+    let mut d = Dec { buf, pos: 0, end: buf.len(), zero_budget: MAX_ZERO_WIDTH_ELEMS, lenient_empty_array: false };
     let v = d.value(0)?;
     Ok((v, d.pos))
+}
+
+/// Like `decode_all`, but additionally accepts an EMPTY array that carries no element constructor
+/// (`e0 01 00` / `f0 00000004 00000000`).  The ABNF makes the constructor mandatory, but the prose of the
+/// specification does not spell the empty case out; a judge that must not raise false alarms on an
+/// encoder's output uses this permissive reading.
+pub fn decode_all_lenient_empty_array(buf: &[u8]) -> Result<RVal, RErr> {
+    let mut d = Dec { buf, pos: 0, end: buf.len(), zero_budget: MAX_ZERO_WIDTH_ELEMS, lenient_empty_array: true };
+    let v = d.value(0)?;
+    if d.pos != buf.len() {
+        return err(d.pos, format!("{} trailing bytes after the value", buf.len() - d.pos));
+    }
+    Ok(v)
 }
 
 /// `decode` + require that all of `buf` was consumed.
@@ -38,6 +51,7 @@ struct Dec<'a> {
     /// reads must stay below this offset: the end of the innermost enclosing compound/array, else of the buffer
     end: usize,
     zero_budget: usize,
+    lenient_empty_array: bool,
 }
 
 impl<'a> Dec<'a> {
@@ -157,6 +171,9 @@ impl<'a> Dec<'a> {
 
     /// array = size count constructor *data : the constructor is there even when count is 0
     fn array(&mut self, count: usize, depth: usize) -> Result<RVal, RErr> {
+        if self.lenient_empty_array && count == 0 && self.pos == self.end {
+            return Ok(RVal::Array(RType::Null, vec![]));
+        }
         let ctor = self.ctor(depth + 1)?;
         let (ety, min_width) = ctor_type(&ctor);
         if min_width == 0 {
